@@ -552,6 +552,104 @@ def gen_gain_near_tie(rng):
             "absorbing": [False, False, False], "init": [[0, "1"]], "gamma": "1"}
 
 
+def gen_absorbing_exits(rng):
+    """states FLAGGED absorbing (is_absorbing) that still have SEVERAL actions whose next-state distributions lead to other
+    states (what msdm's own grid domains do for goal cells): the planner must ignore those rows, yet its action-gain table
+    sees them.  Around them: self-loop classes of different gain and 2-state cycles whose better action (same transition,
+    higher reward) is only found by the BIAS step; the worse action and the lower-gain exit come first with probability .7.
+    Every state is initial, so every successor of a flagged state is in the state list anyway."""
+    nA = rng.randint(2, 3)
+    actions, trans, reward, absorbing, entries, egain = [], {}, {}, [], [], {}
+    def add(acts):
+        actions.append(sorted(acts)); absorbing.append(False); return len(actions) - 1
+    for _ in range(rng.randint(1, 2)):                 # paying self-loops
+        a = rng.randrange(nA); s = add([a])
+        trans["%d,%d" % (s, a)] = [[s, "1"]]
+        gval = F(rng.choice([x for x in range(-3, 6) if x != 0]), rng.choice([1, 2]))
+        reward["%d,%d,%d" % (s, a, s)] = str(gval)
+        entries.append(s); egain[s] = gval
+    for _ in range(rng.randint(1, 2)):                 # cycles u <-> v, u chooses its reward
+        a1, a2 = rng.sample(range(nA), 2)
+        lo, hi = sorted(rng.sample([F(x, 2) for x in range(-6, 12)], 2))
+        if (a1 < a2) != (rng.random() < .7):
+            a1, a2 = a2, a1                            # w.p. .7 the lower action id carries the LOWER reward
+        u = add([a1, a2]); b = rng.randrange(nA); v = add([b])
+        trans["%d,%d" % (u, a1)] = [[v, "1"]]; trans["%d,%d" % (u, a2)] = [[v, "1"]]
+        if lo != 0: reward["%d,%d,%d" % (u, a1, v)] = str(lo)
+        if hi != 0: reward["%d,%d,%d" % (u, a2, v)] = str(hi)
+        trans["%d,%d" % (v, b)] = [[u, "1"]]
+        back = F(rng.randint(-2, 2))
+        if back != 0: reward["%d,%d,%d" % (v, b, u)] = str(back)
+        entries.append(u); egain[u] = (hi + back) / 2
+    for _ in range(rng.randint(1, 2)):                 # flagged terminal states with exits
+        k = rng.randint(2, min(nA, len(entries) + 1))
+        acts = sorted(rng.sample(range(nA), k))
+        t = add(acts); absorbing[t] = True
+        targets = rng.sample(entries, min(k, len(entries)))
+        while len(targets) < k:
+            targets.append(rng.choice(entries))
+        if rng.random() < .7:
+            targets.sort(key=lambda e_: egain[e_])     # the lowest-gain exit is the first action (the initial policy)
+        for a, e in zip(acts, targets):
+            if rng.random() < .25:
+                e2 = rng.choice(entries)
+                trans["%d,%d" % (t, a)] = [[e, "1/2"], [e2, "1/2"]] if e2 != e else [[e, "1"]]
+            else:
+                trans["%d,%d" % (t, a)] = [[e, "1"]]
+            if rng.random() < .5:                      # rewards "in" the terminal state must be ignored
+                for ns, _ in trans["%d,%d" % (t, a)]:
+                    reward["%d,%d,%d" % (t, a, ns)] = str(rng.choice([-5, 3, 7]))
+    if rng.random() < .25:                             # a transient chooser that may also step into a terminal state
+        acts = sorted(rng.sample(range(nA), rng.randint(2, nA)))
+        c = add(acts)
+        pool = list(range(c))
+        for a in acts:
+            succ = rng.sample(pool, rng.randint(1, min(2, len(pool))))
+            ps = gen_mdp._split_prob(rng, len(succ))
+            trans["%d,%d" % (c, a)] = [[ns, str(p_)] for ns, p_ in zip(succ, ps)]
+            r = F(rng.randint(-4, 4))
+            if r != 0:
+                for ns in succ: reward["%d,%d,%d" % (c, a, ns)] = str(r)
+    n = len(actions)
+    ps = gen_mdp._split_prob(rng, n) if n <= 8 else [F(1, n)] * n
+    return {"n": n, "nA": nA, "actions": actions, "trans": trans, "reward": reward, "absorbing": absorbing,
+            "init": [[s, str(p_)] for s, p_ in zip(range(n), ps)], "gamma": "1" if rng.random() < .8 else rng.choice(["9/10", "1/2"])}
+
+
+def degenerate_rewards(rng, m):
+    """same MDP, DEGENERATE rewards: every state-action pair has expected reward exactly 0 once absorbing rows are zeroed --
+    (zero) no reward at all, (terminal-only) rewards only on rows of flagged-absorbing states, (lottery) zero-mean lotteries
+    r_i = c*p_j, r_j = -c*p_i on two successors.  Every policy is optimal (all gains / values 0): what remains to be right is
+    the SUPPORT (state-dependent action sets) and the zero tables."""
+    import copy
+    b = copy.deepcopy(m)
+    mode = rng.choice(["zero", "terminal-only", "lottery", "lottery"])
+    keep = {}
+    if mode == "terminal-only":
+        keep = {k_: v_ for k_, v_ in b["reward"].items() if b["absorbing"][int(k_.split(",")[0])]}
+        for s_ in range(b["n"]):
+            if b["absorbing"][s_]:
+                for a in b["actions"][s_]:
+                    for ns, p_ in b["trans"]["%d,%d" % (s_, a)]:
+                        if F(p_) != 0 and rng.random() < .7:
+                            keep["%d,%d,%d" % (s_, a, ns)] = str(rng.choice([-4, 2, 9]))
+    elif mode == "lottery":
+        memo = {}
+        for k_, row in b["trans"].items():
+            s_, a = map(int, k_.split(","))
+            pos = [(ns, F(p_)) for ns, p_ in row if F(p_) != 0]
+            key = json.dumps(row)
+            if len(pos) >= 2 and not b["absorbing"][s_]:
+                if key not in memo:
+                    memo[key] = F(rng.choice([-8, -2, 1, 4, 6]))
+                c = memo[key]
+                (i, pi_), (j, pj) = pos[0], pos[1]
+                keep["%d,%d,%d" % (s_, a, i)] = str(c * pj)
+                keep["%d,%d,%d" % (s_, a, j)] = str(-c * pi_)
+    b["reward"] = keep
+    return b, mode
+
+
 TINY_K = [8, 10, 20, 27, 30, 40, 52]
 
 
@@ -647,51 +745,61 @@ def gen_case(rng, tier):
     nmax = 6 if tier == "quick" else 8
     r = rng.random()
     more = None
-    if r < .15:
+    if r < .13:
         kind = "discounted"
         m = gen_mdp.gen_mdp(rng, nmax=nmax, amax=3, gamma=rng.choice(DISC_GAMMAS))
-    elif r < .21:
+    elif r < .18:
         kind = "discounted-components"        # many disconnected components / paying self-loops, 5-8 states
         m = gen_components(rng)
-    elif r < .26:
+    elif r < .23:
         # continuing problems (no terminal states) with a discount rate very close to 1: |V*| ~ 1/(1-gamma)
         kind = "discounted-near-one"
         m = gen_mdp.gen_mdp(rng, nmax=4, amax=2, min_states=2, goal=False, implicit_absorbing=False,
                             gamma=rng.choice(NEAR_ONE))
-    elif r < .31:
+    elif r < .28:
         kind = "discounted-episodic-near-one"  # long stochastic corridors, gamma within ~1e-5 of 1
         m = gen_episodic_near_one(rng, tier)
-    elif r < .36:
+    elif r < .32:
         kind = "undisc-proper-nonpos"        # every policy reaches a terminal state
         m = gen_mdp.gen_mdp(rng, nmax=nmax, amax=3, gamma="1", proper=True)
-    elif r < .42:
+    elif r < .37:
         kind = "undisc-terminal-either-sign"  # terminal states exist but need not be reached
         m = _either_sign(rng, nmax=nmax, amax=3, min_states=2)
-    elif r < .48:
+    elif r < .42:
         kind = "undisc-recurrent"             # no explicit terminal states: unichain or multichain by chance
         m = _either_sign(rng, nmax=nmax, amax=3, min_states=2, goal=False)
-    elif r < .54:
+    elif r < .47:
         kind = "undisc-blocks"                # multichain by construction
         m = gen_blocks(rng, nmax)
-    elif r < .61:
+    elif r < .54:
         kind = "undisc-farms"                 # gain-class choice with exact / near bias ties
         m = gen_farms(rng)
-    elif r < .67:
+    elif r < .59:
         kind = "undisc-large-costs"           # costs ~ -1000 .. -100, state-dependent action sets, no terminal state
         m = gen_large_costs(rng)
-    elif r < .76:
+    elif r < .66:
         kind = "tiny-probabilities"           # probabilities 2^-k / 1-2^-k, k in {8,10,20,27,30,40,52}
         m = gen_tiny(rng)
-    elif r < .83:
+    elif r < .71:
         kind = "discounted-discount-decides"  # the discount rate decides between 'now' and 'later' (incl. gamma = 0)
         m = gen_discount_decides(rng)
-    elif r < .89:
+    elif r < .76:
         kind = "discounted-near-tie"          # values ~1e3, a clone of the optimal action worse by 1e-6..1e-5 relative
         # 40%: the slightly worse clone is the INITIAL policy (lowest action id): there the unchanged code keeps it
         # (relative tie band of the improvement test) and reports values up to 1e-4 relative below the optimum --
         # recorded as known finding, class rule NEAR_TIE_RULE; C16_WORSE_FIRST=0 switches the sub-class off
         wf = os.environ.get("C16_WORSE_FIRST", "1") != "0" and rng.random() < .4
         m, _info = gen_near_tie(rng, worse_first=wf)
+    elif r < .84:
+        kind = "absorbing-exits"              # flagged-absorbing states with several actions leading elsewhere
+        m = gen_absorbing_exits(rng)
+    elif r < .89:
+        # expected reward exactly 0 everywhere (no rewards / rewards only in terminal states / zero-mean lotteries)
+        base = gen_mdp.gen_mdp(rng, nmax=nmax, amax=3, min_states=2, gamma=rng.choice(["1", "1", "9/10", "1/2"]))
+        if F(base["gamma"]) == 1 and rng.random() < .5:
+            base = gen_blocks(rng, nmax)
+        m, _mode = degenerate_rewards(rng, base)
+        kind = "degenerate-rewards"
     else:
         kind = "undisc-sweep"                 # one planner object: A, perturbed B, (C,) A again
         m, more = gen_sweep(rng, tier)
@@ -1397,7 +1505,9 @@ def run(ctx):
                 "(2-4 states, gamma in {1-2^-10,1-2^-14,1-2^-17,1-10^-6}); discounted EPISODIC near-one (stochastic corridors of 8-16/24 cells, gamma in "
                 "{1-2^-20, 0.999995, 1-2^-17, 1-2^-14}, dyadic costs up to 1000, judged at 1e-7 relative); undiscounted: proper non-positive, terminal states with "
                 "rewards of either sign, recurrent (unichain/multichain by chance), block-structured multichain, gain-class-choice 'farms' (exact / near bias ties across "
-                "classes of different gain), 'large costs' (per-step costs -1200..-80, no terminal state, pure entry states lacking an action id), 'tiny probabilities' "
+                "classes of different gain), 'large costs' (per-step costs -1200..-80, no terminal state, pure entry states lacking an action id), 'absorbing-exits' (flagged-absorbing states with "
+                "2-3 actions leading to classes of different gain, 2-cycles improved only by the bias step, worse choices first), 'degenerate rewards' (expected "
+                "reward exactly 0 everywhere: none / only in terminal states / zero-mean lotteries, with state-dependent action sets), 'tiny probabilities' "
                 "(2-3 states, transition probabilities 2^-k and 1-2^-k for k in {8,10,20,27,30,40,52}: almost absorbing self-loops, almost unreachable exits, "
                 "almost disconnected classes, multi-state classes with a tiny leak; 80%% undiscounted), and 'sweeps' "
                 "(ONE planner object plans on A, a perturbation B with probabilities turned to/from 0, (C,) and A again; every step judged).  Residual tolerance = "
